@@ -36,6 +36,7 @@ func runC19(c *Ctx) {
 	c.L.Floor("C19.encode-locked", 1)
 	c.L.Floor("C19.shared-lock", 3)
 	c.L.Floor("C19.attrs-isolated", 1)
+	c.L.Floor("C19.attrs-accumulate", 1)
 	c.L.Floor("C19.immutable-handler", 1)
 	c.L.Floor("C19.pool", 3)
 	c.L.Floor("C19.severity", 2)
@@ -212,6 +213,53 @@ func runC19(c *Ctx) {
 				why, good = "slices.Concat allocates", true
 			}
 			c.check(good, "C19.attrs-isolated", wa, "derived.textAttrs does not share spare capacity with the parent", nil, why)
+			// accumulation: the derived attributes are the parent's followed by the new ones
+			var contents func(v ssa.Value, depth int) ([]string, bool)
+			contents = func(v ssa.Value, depth int) ([]string, bool) {
+				if depth > 6 {
+					return nil, false
+				}
+				if name, base, ok := core.IsLoadOfField(v); ok && name == "textAttrs" && base == r {
+					return []string{"parent"}, true
+				}
+				if len(wa.Params) > 1 && v == ssa.Value(wa.Params[1]) {
+					return []string{"new"}, true
+				}
+				switch x := v.(type) {
+				case *ssa.Const:
+					if x.Value == nil {
+						return nil, true
+					}
+				case *ssa.MakeSlice:
+					if k, isK := core.ConstInt(x.Len); isK && k == 0 {
+						return nil, true
+					}
+					return nil, false // zero-valued elements in front
+				case *ssa.Slice:
+					if x.Low == nil {
+						if x.High == nil {
+							return contents(x.X, depth+1)
+						}
+						if lc, ok := x.High.(*ssa.Call); ok && core.CalleeName(&lc.Call) == "builtin.len" && lc.Call.Args[0] == x.X {
+							return contents(x.X, depth+1)
+						}
+					}
+				case *ssa.Call:
+					n := core.CalleeName(&x.Call)
+					switch {
+					case n == "builtin.append" && len(x.Call.Args) == 2:
+						a, ok1 := contents(x.Call.Args[0], depth+1)
+						b, ok2 := contents(x.Call.Args[1], depth+1)
+						return append(append([]string{}, a...), b...), ok1 && ok2
+					case strings.HasPrefix(n, "slices.Clip"), strings.HasPrefix(n, "slices.Clone"):
+						return contents(x.Call.Args[0], depth+1)
+					}
+				}
+				return nil, false
+			}
+			got, okC := contents(ta, 0)
+			c.check(okC && reflect.DeepEqual(got, []string{"parent", "new"}), "C19.attrs-accumulate", wa, "derived.textAttrs == h.textAttrs followed by attrs", nil,
+				sprintf("contents by construction: %v (recognised: %v) — attributes of every ancestor must reach the records of a handler derived through a chain of WithAttrs calls", got, okC))
 		}
 	}
 	// no method stores through the receiver
